@@ -3,3 +3,4 @@ open IrVerif.Scope
 #print axioms C03_twice
 #print axioms C03_pure
 #print axioms C03_roundtrip
+#print axioms C03_roundtrip_reloadable
